@@ -14,7 +14,9 @@ CONSTANTS Arch,            \* "msgpack" | "json": which archive's documents are 
           Mode, MaxOps, Widths, Pads,
           TypedTargets,    \* typed mode: target types explored
           CorruptBytes,    \* typed mode: byte values written over each position of the encoding ({} = no corruption)
-          NumNeg, NumPos   \* numeric mode (C04): the integer sources -NumNeg..NumPos are enumerated exhaustively
+          NumNeg, NumPos,  \* numeric mode (C04): the integer sources -NumNeg..NumPos are enumerated exhaustively
+          NumBase,         \* numeric mode: the enumerated range is (NumBase - NumNeg)..(NumBase + NumPos)
+          NumLeafOnly      \* numeric mode: TRUE = only the root position (the exhaustive 16-bit sweep), FALSE = every position
 
 VARIABLES doc,     \* abstract document (root value)
           w,       \* width policy of the independent encoder
@@ -208,14 +210,14 @@ NumLimits == UNION { { <<"int", FALSE, Pow2Bytes(k)>>, <<"int", FALSE, AddSmall(
                        <<"int", TRUE, Pow2Bytes(k)>>, <<"int", TRUE, AddSmall(Pow2Bytes(k), 1)>>, <<"int", TRUE, SubSmall(Pow2Bytes(k), 1)>> }
                      : k \in {7, 8, 15, 16, 24, 31, 32, 53, 63} }
              \cup { <<"int", FALSE, <<255, 255, 255, 255, 255, 255, 255, 255>>>>, <<"int", FALSE, <<255, 255, 255, 255, 255, 255, 255, 254>>>> }
-NumCorpus == { IntSmall(n) : n \in (0 - NumNeg)..NumPos }
+NumCorpus == { IntSmall(n) : n \in (NumBase - NumNeg)..(NumBase + NumPos) }
              \cup { x \in NumLimits : Arch # "msgpack" \/ ~JsonBigNeg(x) }          \* MessagePack cannot carry integers below -2^63
              \cup { <<"bool", TRUE>>, <<"bool", FALSE>> }
              \cup (IF Arch = "msgpack" THEN FloatCorpus ELSE IF Arch = "xml" THEN XFloats ELSE JFloats)
 TypedCorpus == (IF Arch = "msgpack" THEN ScalarCorpus ELSE IF Arch = "xml" THEN XScalars \cup {<<"nil">>} ELSE JScalars) \cup { <<"arr", <<U(1), U(200), U(-3)>>>>, <<"arr", <<>>>>, <<"arr", <<U(1), S(<<122>>)>>>>, <<"map", <<<<S(Ka), U(1)>>>>>> }
 
 InitTyped == /\ \E v \in (IF Mode = "numeric" THEN NumCorpus ELSE TypedCorpus),
-                   T \in (IF TypedTargets # {} THEN TypedTargets ELSE IF Mode = "numeric" THEN NumTargets ELSE Targets) : \E r \in TypedRoots(T) : ("at" \in DOMAIN r => v[1] \notin {"arr", "map", "nil"}) /\ doc = Wrap(v, r) /\ root = r
+                   T \in (IF TypedTargets # {} THEN TypedTargets ELSE IF Mode = "numeric" THEN NumTargets ELSE Targets) : \E r \in (IF Mode = "numeric" /\ NumLeafOnly THEN { [k |-> "leaf", t |-> T] } ELSE TypedRoots(T)) : ("at" \in DOMAIN r => v[1] \notin {"arr", "map", "nil"}) /\ doc = Wrap(v, r) /\ root = r
              /\ w \in Widths
              /\ pol \in (IF Mode = "numeric" THEN {ThrowPol, SkipPol, MixPol, MixPol2} ELSE {ThrowPol, SkipPol})   \* C04: the two policies are independent
              /\ aux = [cut |-> 0, ci |-> 0, cb |-> 0]
